@@ -920,7 +920,7 @@ func runOnce(c *Case, w *want, info *vkit.Info, rep int, tol *tolerated) error {
 		minVoters = tv
 	}
 	origin := sim.String()
-	var hasEnter, inJointTransfer, demoteStep, lightStep, leaderMoved bool
+	var hasEnter, singleChangeEnter, vacuousEnter, inJointTransfer, demoteStep, lightStep, leaderMoved bool
 	demotes := 0
 	for i, step := range steps {
 		before := sim.String()
@@ -933,9 +933,12 @@ func runOnce(c *Case, w *want, info *vkit.Info, rep int, tol *tolerated) error {
 			return fmt.Errorf("step %d (%s) of %s: CheckSafety fails when its turn comes: %v; region %s, origin %s, request %s",
 				i, step, plan, err, before, origin, w)
 		}
-		switch step.(type) {
+		switch st := step.(type) {
 		case operator.ChangePeerV2Enter:
-			hasEnter = true
+			n := len(st.PromoteLearners) + len(st.DemoteVoters)
+			hasEnter = hasEnter || n > 0
+			singleChangeEnter = singleChangeEnter || n == 1
+			vacuousEnter = vacuousEnter || n == 0
 		case operator.TransferLeader:
 			leaderMoved = true
 			inJointTransfer = inJointTransfer || sim.InJoint()
@@ -1024,6 +1027,8 @@ func runOnce(c *Case, w *want, info *vkit.Info, rep int, tol *tolerated) error {
 		info.ClassIf(len(steps) >= 2, "steps>=2")
 		info.ClassIf(len(steps) >= 5, "steps>=5")
 		info.ClassIf(hasEnter, "joint")
+		info.ClassIf(singleChangeEnter, "joint:single-change-enter")
+		info.ClassIf(vacuousEnter, "joint:vacuous-enter-leave")
 		info.ClassIf(inJointTransfer, "leader-moved-in-joint")
 		info.ClassIf(demoteStep, "demote-without-joint")
 		info.ClassIf(lightStep, "light")
